@@ -56,3 +56,28 @@ func c05load(g *Gen, i int, path string, files map[string]string, names []string
 }
 
 func c02nresults(s *types.Signature) int { return len(s.Results) }
+
+func c12load(g *Gen, i int, tags []string, path string, files map[string]string, names []string, deps map[string]string) (types.Universe, error) {
+	src := filepath.Join(os.Getenv("GOPATH"), "src")
+	write := func(p, name, text string) {
+		d := filepath.Join(src, p)
+		os.MkdirAll(d, 0755)
+		os.WriteFile(filepath.Join(d, name), []byte(text), 0644)
+	}
+	for _, n := range names {
+		write(path, n, files[n])
+	}
+	for dp, text := range deps {
+		write(dp, "dep.go", text)
+	}
+	defer os.RemoveAll(filepath.Join(src, path))
+	cwd, _ := os.Getwd()
+	os.Chdir(src)
+	defer os.Chdir(cwd)
+	b := parser.New()
+	b.AddBuildTags(tags...)
+	if err := b.AddDir(path); err != nil {
+		return nil, err
+	}
+	return b.FindTypes()
+}
